@@ -63,6 +63,9 @@ func New(
 		opt(server)
 	}
 
+	// a panic in a handler must not terminate the process
+	app.Use(middlewares.Recover(l, mm))
+
 	// Logging middlewares
 	if !server.quiet {
 		app.Use(logger.New(logger.Config{
